@@ -125,7 +125,7 @@ def add_random_terms(r, m, cplx=False, allow=("hop", "level", "coulombS", "coulo
                                                "user2", "user4", "pair", "spinflip_hop", "user6", "useralt")):
     """append preset calls / user terms (with Hermitian conjugates) to the model"""
     sites = m.sites
-    nops = r.range(1, 5)
+    nops = r.range(1, 5) if not r.chance(1, 25) else 0      # now and then a lattice without any term (H = 0)
     for _ in range(nops):
         kind = r.choice(list(allow))
         a = r.choice(sites)
@@ -327,7 +327,7 @@ def observables_script(r, m, beta, M, want=("gf", "chi", "susc", "vertex"), ngf=
         lines.append("fop1 cdag %d" % r.below(M))
         lines.append("fop1 c %d" % r.below(M))
         lines.append("fop1 quad %d %d" % (r.below(M), r.below(M)))
-    ns = [0, -1, 1, r.range(-9, 9), r.choice([50, -37, 1000])]
+    ns = [0, -1, 1, r.range(-9, 9), r.choice([50, -37, 1000, 2 ** 31 + 5, -(2 ** 33) - 7])]      # incl. beyond the int range
     if "gf" in want:
         pairs = [(i, j) for i in range(M) for j in range(M)]
         r.shuffle(pairs)
@@ -503,7 +503,7 @@ def run_corpus(ctx, pid, props):
 
 
 def numeric_campaign(ctx, props, want, n_quick, n_thorough, max_modes_quick=4, max_modes_thorough=5, trunc=False,
-                     symm_modes=("default", "default", "ignore", "custom"), allow=None, betas=(0.5, 1.0, 2.0, 5.0, 10.0, 30.0, 100.0, 400.0),
+                     symm_modes=("default", "default", "ignore", "custom"), allow=None, betas=(0.01, 0.5, 1.0, 2.0, 5.0, 10.0, 30.0, 100.0, 400.0),
                      variants_thorough=("real", "complex"), nontrivial=None, extra=None, ngf=6, nchi=2, nsusc=2, near=0, shifts=(5.0, -3.0, 0.625, 40.0), scales=None):
     r = ctx.rng
     thorough = ctx.tier == "thorough"
